@@ -585,9 +585,27 @@ def site_arms(v, bid, site):
         if site.get("pseudo"):
             want = site.variant
         site = site.site
-    out = []
+    cache = v.__dict__.setdefault("_site_arms_cache", {})
+    ckey = (bid, site, want, DEPTH["max_visits"], DEPTH["inline"])
+    if ckey in cache:
+        return list(cache[ckey])
     b = v.P.bodies[bid]
     arms = VARIANTS if b.is_handler() else [None]
+    if want is None:
+        # one pass over the paths of the body indexes every site
+        idx = v.__dict__.setdefault("_site_index", {})
+        ikey = (bid, DEPTH["max_visits"], DEPTH["inline"])
+        if ikey not in idx:
+            m = {}
+            for var in arms:
+                for p in v.arm(bid, var):
+                    for _, e in ev_effects(p):
+                        m.setdefault(e.site, set()).add(var)
+            idx[ikey] = m
+        out = [var for var in arms if var in idx[ikey].get(site, ())]
+        cache[ckey] = out
+        return list(out)
+    out = []
     for var in arms:
         for p in v.arm(bid, var):
             hit = False
@@ -598,7 +616,8 @@ def site_arms(v, bid, site):
             if hit:
                 out.append(var)
                 break
-    return out
+    cache[ckey] = out
+    return list(out)
 
 
 def _site_on_no_path(v, bid, e):
@@ -611,6 +630,31 @@ def _site_on_no_path(v, bid, e):
             if blk in p.blocks:
                 return False
     return True
+
+
+def thunk_cell_none_dead(v, p):
+    """The path saw a cell that holds a local thunk (concat's `next`) empty - although that cell is stored before the thunk's
+    first call in ROOT.H and never cleared (the K-thunk invariant of C17): such a path cannot run."""
+    for (_, a, _) in guards_before(p, len(p.events)):
+        if not (((a[0] == "opt" and a[2] == "none") or (a[0] == "discr" and a[2] == 0)) and a[1][0] == "cellload"):
+            continue
+        ld = a[1]
+        if v.m.recv_class(v.op, ("someof", ld))[0] != "THUNKCELL":
+            continue
+        ck = cell_key(ld[1])
+        if _none_stores(v, ck[0]):
+            continue
+        r = v.root
+        okp = r is not None
+        if okp:
+            for pp in returning(v.arm(r, "Handshake", inline=0)):
+                st = [j for j, x in ev_effects(pp) if x.kind == "cell" and x.op == "store" and base_key(x.cell) == ck[0]]
+                th = [j for j, x in ev_effects(pp) if x.kind == "thunk"]
+                if not st or (th and st[0] > th[0]):
+                    okp = False
+        if okp:
+            return True
+    return False
 
 
 def thunk_callers(v, target):
@@ -2432,7 +2476,11 @@ def from_iter_lemmas(ctx, v):
                     probs.append("loop entered without testing the in-loop flag")
         # every returning Pull path records the pull (unless disposed)
         if p.end == "return":
-            disposed = any(a[0] == "bool" and a[2] is True and flag_observation(a[1]) is not None for (_, a, _) in guards_before(p, len(p.events))[:1])
+            # an early return of a path that has only observed flags and found one raised (the sink left, or the iterator is
+            # exhausted and the sink was told): nothing to record
+            only_loads = all((e.kind == "atomic" and e.op == "load") or e.tracing or not effect_visible(P, e) for _, e in ev_effects(p))
+            disposed = any(a[0] == "bool" and a[2] is True and flag_observation(a[1]) is not None for (_, a, _) in guards_before(p, len(p.events))[:1]) \
+                or (only_loads and any(a[0] == "bool" and a[2] is True and flag_observation(a[1]) is not None for (_, a, _) in guards_before(p, len(p.events))))
             if not disposed and not bool_stores(p, 1):
                 probs.append("a Pull path does not record the pull")
             # the store precedes the in_loop test
@@ -2464,7 +2512,10 @@ def from_iter_lemmas(ctx, v):
                 continue
             n_iter += 1
             resets = [i for i, e in effs if lowers_flag(e) and cell_key(e.cell) == pull_flag]
-            if not resets or (nexts and resets[0] > nexts[0][0]):
+            # `while .. && got_pull.swap(false)`: the test that starts the iteration is itself the consumption
+            start_obs = norm_pred(evs[s][1], evs[s][2])[1]
+            consumed_at_test = start_obs[0] == "rmw" and start_obs[2] in ("swap", "fetch_and") and start_obs[3] is not None and start_obs[3][0] == "const" and not start_obs[3][3]
+            if not consumed_at_test and (not resets or (nexts and resets[0] > nexts[0][0])):
                 probs.append("iteration does not consume the pull before advancing")
             if len(nexts) != 1:
                 probs.append("%d iterator advances in one iteration" % len(nexts))
@@ -2626,6 +2677,8 @@ def demand_lemmas(ctx, v):
         # UP.T hands the token to `next`
         probs = []
         for p in returning(v.arm(h, "Terminate", inline=0)):
+            if thunk_cell_none_dead(v, p):
+                continue
             th = [e for i, e in ev_effects(p) if e.kind == "thunk"]
             rm = [i for i, e in ev_effects(p) if e.kind == "atomic" and e.op == "fetch_add"]
             ti = [i for i, e in ev_effects(p) if e.kind == "thunk"]
@@ -2896,6 +2949,8 @@ def concat_lemmas(ctx, v):
     # in UP.T the index is advanced (unit RMW on the same cell) before the call
     probs = []
     for p in returning(v.arm(h, "Terminate", inline=0)):
+        if thunk_cell_none_dead(v, p):
+            continue
         rm = [(i, e) for i, e in ev_effects(p) if e.kind == "atomic" and e.op == "fetch_add" and e.operand[3] == 1 and cell_key(e.cell) == idx_cell]
         th = [(i, e) for i, e in ev_effects(p) if e.kind == "thunk" and e.target == t]
         if len(rm) != 1 or len(th) != 1 or not rm[0][0] < th[0][0]:
@@ -4439,6 +4494,8 @@ def for_each_lemmas(ctx, v):
         if len(ucs) != 1 or ucs[0][1].args != [incoming_payload(h, "Data")] or not is_factory_param(v, strip_clone(ucs[0][1].fn)):
             probs.append("f is not called exactly once on the incoming datum")
             continue
+        if not sig and tb_none_decided(v, p):
+            continue        # the talkback cell was seen empty: dead while Data is arriving (stored at the greeting, ORD-store-pub)
         if [(s[0], s[1]) for s in sig] != [("UPTB", "Pull")] or sig[0][4] < ucs[0][0]:
             probs.append("the next item is not requested exactly once, after f returned")
     ctx.ob("REL-1:1", v.key(h, "Data", "REL-1:1", "consume-then-pull"), not probs, "each datum: f(d) once, then exactly one Pull" if not probs else probs[0], v.loc(h))
